@@ -78,6 +78,11 @@ def r1_r2(prog, rep):
 
 
 def r3(prog, rep):
+    # the crossing finder the wall point comes from: every wall edge is tested, in exactly one of
+    # the two slope classes, over its whole closed extent (rule instances of C20.R1-R3)
+    from ..report import Premise
+    from . import c20
+    c20.r1_r2_r3(prog, Premise(rep, "R3", "C20"))
     f = prog.func(MESH, "_find_intersection")
     mod = f.module
     exits = []
